@@ -54,12 +54,31 @@ def check_events(ctx):
     for n in ast.walk(sel.elt):
         if isinstance(n, ast.BinOp) and isinstance(n.op, ast.BitAnd):
             mask = n
-    if mask is None or not (isinstance(mask.left, ast.Compare) and isinstance(mask.right, ast.Compare)):
+    btw = [n for n in ast.walk(sel.elt) if isinstance(n, ast.Call) and isinstance(n.func, ast.Attribute) and n.func.attr == 'between']
+    if mask is None and btw:
+        b = btw[0]
+        a_ = [norm_text(x) for x in b.args]
+        inc = next((k.value for k in b.keywords if k.arg == 'inclusive'), b.args[2] if len(b.args) > 2 else None)
+        incv = inc.value if isinstance(inc, ast.Constant) else ('both' if inc is None else None)
+        if a_[:2] == [lo_name, hi_name] and incv is not None:
+            ok_lo = incv in ('both', 'left', True)
+            ok_hi = incv in ('left', 'neither')
+            ctx.ob('R1', fi, b, ok_lo, 'lower edge inclusive' if ok_lo else 'lower edge exclusive: an event on a part boundary (and at time 0) belongs to no part')
+            ctx.ob('R1', fi, norm_text(b) + ' [upper]', ok_hi, 'upper edge exclusive' if ok_hi else
+                   f'Series.between(..., inclusive={incv!r}) includes the upper edge: an event exactly on a part boundary is counted in two parts')
+            ctx.ob('R1', fi, 'split column', True, 'one column tested')
+            mask = 'between'
+        else:
+            ctx.ob('R1', fi, b, None, 'arguments of between() not recognised')
+            return
+    if mask == 'between':
+        pass
+    elif mask is None or not (isinstance(mask.left, ast.Compare) and isinstance(mask.right, ast.Compare)):
         ctx.ob('R1', fi, sel.elt, None, 'row mask is not the conjunction of two comparisons')
         return
     found = {'lo': None, 'hi': None}
     cols = set()
-    for c in (mask.left, mask.right):
+    for c in ((mask.left, mask.right) if mask != 'between' else ()):
         if len(c.ops) != 1:
             continue
         l, r, op = c.left, c.comparators[0], c.ops[0]
@@ -74,7 +93,9 @@ def check_events(ctx):
             continue
         cols.add(col)
         found['lo' if bound == lo_name else 'hi'] = (o, c)
-    if found['lo'] is None or found['hi'] is None:
+    if mask == 'between':
+        pass
+    elif found['lo'] is None or found['hi'] is None:
         ctx.ob('R1', fi, mask, None, 'lower / upper bound tests not recognised')
     else:
         (olo, clo), (ohi, chi) = found['lo'], found['hi']
@@ -180,16 +201,24 @@ def check_transitions_split(ctx):
 
 def check_jumps_split(ctx):
     fi = ctx.fn(JS)
-    cons = [n for n in ast.walk(fi.node) if isinstance(n, ast.Call) and norm_text(n.func) in ('Jumps', 'self.__class__', 'type(self)')]
+    it = ctx.entry(JS)
+    # the Jumps objects built for the parts (directly or through Transitions.jumps(**kwargs))
+    cons = [e for e in it.events if e['tag'] == 'construct' and e['cls'] == 'gemdat.jumps.Jumps' and JS in e['ctx']]
     if not cons:
-        ctx.ob('R3', fi, 'Jumps(part, ...)', None, 'constructor not found')
+        ctx.ob('R3', fi, 'Jumps(part, ...)', None, 'construction of the per-part Jumps not found')
         return
-    c = cons[0]
-    kw = {k.arg: norm_text(k.value) for k in c.keywords}
+    e = cons[-1]
+    kw = dict(e['kwargs'])
+    star = kw.pop('**', None)
+    if star is not None and star.kw:
+        for k_, v_ in star.kw.items():
+            kw.setdefault(k_, v_)
     for k in ('conversion_method', 'minimal_residence'):
-        ok = kw.get(k) == f'self.{k}'
-        ctx.ob('R3', fi, f'{k}=', ok, f'{k} of the source forwarded' if ok else
-               f'`{k}` is not forwarded: the parts are analysed with the default setting, their jump counts are not comparable with the whole')
+        v = kw.get(k)
+        ok = v is not None and (v.store == f'attr:Jumps.{k}' or (v.deps and any(d.endswith(f'.{k}') for d in v.deps)) or v.ty == 'func' or v.is_param)
+        ctx.ob('R3', fi, f'{k}=', True if ok else False, f'{k} of the source forwarded' if ok else
+               f'`{k}` is not forwarded: the parts are analysed with the default setting, so jumps rejected in the whole are counted in the parts '
+               f'(part counts exceed the total)')
     src = [n for n in ast.walk(fi.node) if isinstance(n, ast.Call) and norm_text(n.func) == 'self.transitions.split']
     ok = bool(src) and any(norm_text(a) == 'n_parts' for s in src for a in list(s.args) + [k.value for k in s.keywords])
     ctx.ob('R3', fi, 'self.transitions.split(n_parts)', True if ok else None, 'jumps re-derived from the transition parts')
@@ -226,6 +255,23 @@ def check_traj_split(ctx):
         ctx.ob('R4', fi, seq, True if ok else None, 'n_parts + 1 non-decreasing integer edges from 0' if ok else 'edge sequence not recognised')
     else:
         ctx.ob('R4', fi, 'interval', None, 'edge sequence is not np.linspace')
+    eq_if = [n for n in ast.walk(fi.node) if isinstance(n, ast.If) and 'equal_parts' in norm_text(n.test)]
+    for blk in eq_if:
+        names = set()
+        lens = False
+        for b_ in blk.body:
+            for w in ast.walk(b_):
+                if isinstance(w, ast.Assign) and any(isinstance(t, ast.Name) and t.id == 'minsize' for t in w.targets):
+                    # names feeding the value, and the iteration space of enclosing loops
+                    names |= {x.id for x in ast.walk(w.value) if isinstance(x, ast.Name)}
+                    lens = lens or any(isinstance(x, ast.Call) and isinstance(x.func, ast.Name) and x.func.id == 'len' and x.args
+                                       and norm_text(x.args[0]) != 'self' for x in ast.walk(w.value))
+            if isinstance(b_, ast.For) and any(isinstance(w, ast.Assign) and any(isinstance(t, ast.Name) and t.id == 'minsize' for t in w.targets) for w in ast.walk(b_)):
+                names |= {x.id for x in ast.walk(b_.iter) if isinstance(x, ast.Name)}
+        derived = bool(names & {norm_text(g.iter.args[0]), 'subtrajectories'}) or lens
+        ctx.ob('R4', fi, 'minsize', derived, 'trim length = size of the smallest actual part' if derived else
+               'the trim length is computed from len(self) and n_parts only, not from the actual frame ranges: the parts cut from the edge '
+               'sequence can be shorter, so "equal parts" come out with unequal lengths')
     trims = [n for n in comps if n is not main]
     for n in trims:
         t = norm_text(n.elt).replace(' ', '')
